@@ -454,6 +454,12 @@ func c05Run(c *fw.Ctx, s int, ops []c05Op, autoWire bool) {
 			c.Evals(1)
 			if err == nil {
 				m.del(op.id)
+				// a successful delete removes that element and nothing else: the header stays under the profile it was
+				// preset to / decoded with (what later SetExtension calls are judged by)
+				if h.Extension != before.ext || h.ExtensionProfile != before.profile {
+					c.Fail("C05/del-changes-more-than-the-element/"+label+"/"+profClass(h), fmt.Sprintf("a successful DelExtension changed Extension %v -> %v / ExtensionProfile %#04x -> %#04x", before.ext, h.Extension, before.profile, h.ExtensionProfile), wit())
+					return
+				}
 			} else if d := c05SameSnap(before, c05Snapshot(h)); d != "" {
 				c.Fail("C05/error-changes-state/DelExtension/"+sanitize(d)+"/"+label, "a DelExtension call that returned an error changed the header's "+d, wit("error", err.Error()))
 				return
